@@ -381,8 +381,10 @@ func calibrateHeavy() int {
 		scale *= 1.03
 	}
 	heavyN = int(float64(n) * scale)
-	if heavyN < 12 {
-		heavyN = 12
+	// never below 30 facts (2.4e7 index combinations, > 100 ms on an idle core): a calibration
+	// taken while the machine is busy must not yield a join that fits in the 20 ms limit later
+	if heavyN < 30 {
+		heavyN = 30
 	}
 	if heavyN > 70 {
 		heavyN = 70
@@ -407,7 +409,7 @@ func drawC11(t *rapid.T) C11Case {
 	c.Entry = rapid.SampledFrom([]string{"world", "world", "newverifier", "authorizer", "authorizerfor"}).Draw(t, "entry")
 	c.Place = rapid.SampledFrom([]string{"authority", "authorizer", "block"}).Draw(t, "place")
 	x, y, z := m.Var("x"), m.Var("y"), m.Var("z")
-	switch cls := spreadInt(t, "class", 20); {
+	switch cls := spreadInt(t, "class", 22); {
 	case rapid.IntRange(0, 19).Draw(t, "heavy") == 13:
 		n := calibrateHeavy()
 		c2 := heavyCase(n)
@@ -443,6 +445,23 @@ func drawC11(t *rapid.T) C11Case {
 			c.Facts = append(c.Facts, m.P("d", m.Int(int64(i))))
 		}
 		c.Rules = []m.Rule{{Head: m.P("p", x, m.Var("nowhere")), Body: []m.Pred{m.P("d", x)}}}
+	case cls == 18 || cls >= 20:
+		// a derivation ladder l0 -> l1 -> ... -> lk whose rules are listed in a drawn order
+		// (consumer-first orders need one iteration per level: a premature "fixpoint reached"
+		// shows as success with facts missing)
+		c.Class = "layered"
+		k := rapid.IntRange(3, 7).Draw(t, "depth")
+		c.Facts = []m.Pred{m.P("l0", m.Int(1)), m.P("l0", m.Int(2))}
+		var rules []m.Rule
+		for i := 1; i <= k; i++ {
+			rules = append(rules, m.Rule{Head: m.P(fmt.Sprintf("l%d", i), x), Body: []m.Pred{m.P(fmt.Sprintf("l%d", i-1), x)}})
+		}
+		if rapid.Bool().Draw(t, "idle") {
+			rules = append(rules, m.Rule{Head: m.P("idle", x), Body: []m.Pred{m.P("nothing", x)}})
+		}
+		for _, j := range rapid.Permutation(seqInts(len(rules))).Draw(t, "ruleorder") {
+			c.Rules = append(c.Rules, rules[j])
+		}
 	case cls == 16 || cls == 17:
 		// both early-exit paths in one rule: an expression that passes on some bindings and
 		// raises an error on others, with or without an unbound head variable, facts in drawn order
